@@ -945,7 +945,7 @@ impl FixtureDatabase {
 
 /*@ extract src/fixtures/undeclared.rs collect_local_variables
 @tags C17
-@wrapexpr 1 `alias.name.split('.').next().unwrap_or("").to_string()` => `Self::vp_dotted_head(alias)` with fn vp_dotted_head(alias: &rustpython_parser::ast::Alias) -> (r: String) ensures r@ == dotted_head(idv(&alias.name))
+@wrapexpr_opt 1 `alias.name.split('.').next().unwrap_or("").to_string()` => `Self::vp_dotted_head(alias)` with fn vp_dotted_head(alias: &rustpython_parser::ast::Alias) -> (r: String) ensures r@ == dotted_head(idv(&alias.name))
 @sig
     requires is_line_index(ints(line_index@)),
     ensures final(local_vars).m() == locals_body(body@, body@.len() as int, line_index@, old(local_vars).m()),
